@@ -223,6 +223,27 @@ def cone(nodes, roots):
     return seen
 
 
+def cone2(nodes_a, nodes_b, roots):
+    """reachable from roots following the child edges (and bind right-hand sides) recorded in either dump"""
+    seen, todo = set(), list(roots)
+    while todo:
+        r = todo.pop()
+        if r in seen:
+            continue
+        seen.add(r)
+        for nodes in (nodes_a, nodes_b):
+            n = nodes.get(r)
+            if n is None:
+                continue
+            kids = list(n["children"])
+            if n["kind"] == "BindMain" and n["children"]:
+                l = nodes.get(n["children"][0])
+                if l is not None and l["extra"].get("rhs") is not None:
+                    kids.append(l["extra"]["rhs"])
+            todo.extend(kids)
+    return seen
+
+
 def oracle_only_needed(src, ops, tail):
     ref = Ref()
     prev = None
@@ -247,6 +268,10 @@ def oracle_only_needed(src, ops, tail):
                 continue
             roots_end = [r for r, n in op.nodes.items() if n is not None and n["obs"] > 0]
             allowed = cone(prev.nodes, live_before) | cone(op.nodes, roots_end) | cone(op.nodes, live_before)
+            # a bind that becomes necessary again has its previous right-hand side relinked (an edge of the graph at
+            # call time) and may be reached through nodes built during this stabilise (edges of the graph at return):
+            # follow the edges of both graphs
+            allowed |= cone2(prev.nodes, op.nodes, list(live_before) + roots_end)
             # nodes a bind closure created during this very stabilise: the bind was in a cone when its closure ran (its
             # lhs-change node is allowed), even if a later switch in the same stabilise took the bind out of every cone
             grew = True
